@@ -193,6 +193,18 @@ Theorem c13_shuffle_rows : forall m nr nc order,
 Proof. exact shuffle_rows_exact. Qed.
 Print Assumptions c13_shuffle_rows.
 
+(* the hypothesis "permutation of ALL rows" cannot be weakened to "duplicate-free list of
+   rows": shuffle_csr_h5ad_rows does not validate new_row_order; a list that leaves rows
+   out is accepted and the file written is not a CSR matrix (indptr zero-padded, hence
+   decreasing; X keeps the old shape while obs has fewer rows; anndata refuses to read it).
+   Witness: the 4 x 3 matrix of c13_ex and new_row_order = [2; 0]. *)
+Theorem c13_shuffle_rows_sublist_refuted :
+  exists m order out,
+    wf_csr m 4 3 /\ no_dup_minor m /\ NoDup order /\ Forall (fun r => r < 4) order /\
+    shuffle_rows m order = Ok out /\ ptr out = [0; 1; 0; 0; 5] /\ ~ mono (ptr out).
+Proof. exact shuffle_rows_sublist_refuted. Qed.
+Print Assumptions c13_shuffle_rows_sublist_refuted.
+
 (* ---- subset_csc_h5ad_columns.  The input is CSC: its major slices are the columns
    (wf_csr m n_cols n_rows: n_cols + 1 pointers, row indices below n_rows).  For EVERY
    list of columns below n_cols (the correspondence check drives non-empty
